@@ -66,20 +66,32 @@ def gen_variant_templates(rnd: random.Random, n: int) -> List[str]:
     conds = ["x > 5000000", "false", "y", "not true", "1 == 2", "true", "z is defined"]
     lits = [" a,", " b{{ x }},", "\n  c,", " {{ t }} ", " d", ",e ", "\n", " 1 AS f,"]
 
+    def tag(body: str) -> str:
+        """A block tag with randomly chosen whitespace control."""
+        return "{%" + rnd.choice(["", "", "-"]) + " " + body + " " + rnd.choice(["", "", "-"]) + "%}"
+
     def block(depth: int) -> str:
         k = rnd.random()
-        if depth <= 0 or k < 0.3:
+        if depth <= 0 or k < 0.25:
             return rnd.choice(lits)
-        if k < 0.6:
-            s = "{% if " + rnd.choice(conds) + " %}" + block(depth - 1)
+        if k < 0.5:
+            s = tag("if " + rnd.choice(conds)) + block(depth - 1)
             if rnd.random() < 0.4:
-                s += "{% elif " + rnd.choice(conds) + " %}" + block(depth - 1)
+                s += tag("elif " + rnd.choice(conds)) + block(depth - 1)
             if rnd.random() < 0.6:
-                s += "{% else %}" + block(depth - 1)
-            return s + "{% endif %}"
-        if k < 0.85:
-            return "{% for x in r %}" + block(depth - 1) + rnd.choice(["", rnd.choice(lits)]) + "{% endfor %}"
-        return "{% set q = 1 %}" + block(depth - 1) + "{# c #}"
+                s += tag("else") + block(depth - 1)
+            return s + tag("endif")
+        if k < 0.7:
+            return tag("for x in r") + block(depth - 1) + rnd.choice(["", rnd.choice(lits)]) + tag("endfor")
+        if k < 0.78:
+            return tag("set q = 1") + block(depth - 1) + rnd.choice(["{# c #}", "{#- c -#}"])
+        if k < 0.84:
+            return tag("set blk") + rnd.choice(lits) + tag("endset") + " {{ blk }} " + block(depth - 1)
+        if k < 0.9:
+            return tag("macro m(p)") + " {{ p }}" + rnd.choice(lits) + tag("endmacro") + "{{ m(1) }}" + block(depth - 1)
+        if k < 0.95:
+            return "{% raw %}" + rnd.choice([" {{ not_rendered }} ", " {% x %} ", " a "]) + "{% endraw %}" + block(depth - 1)
+        return rnd.choice(["{{- t -}}", "{{ t -}}", "{{- x }}", "{{ x | default(3) }}", "{{ 'lit' }}", "{{ r | join(', ') }}"]) + block(depth - 1)
 
     # fixed shapes first: an unreached branch inside a loop (each tag of the loop body is visited twice)
     out = ["SELECT\n{% for x in [1,2] %}\n  {% if x > 5000000 %} a{{x}}, {% else %} b{{x}}, {% endif %}\n{% endfor %}\n c FROM t\n",
